@@ -101,6 +101,45 @@ impl Gate {
     }
 }
 
+/// a gate of the `lw` leaves: a future that resolves to the gate's number once the gate has been opened
+#[derive(Clone, Default)]
+struct GateH {
+    open: Arc<Mutex<bool>>,
+    wakers: Arc<Mutex<Vec<std::task::Waker>>>,
+}
+
+impl GateH {
+    fn open(&self) {
+        *self.open.lock().unwrap() = true;
+        for w in self.wakers.lock().unwrap().drain(..) {
+            w.wake();
+        }
+    }
+    fn is_open(&self) -> bool {
+        *self.open.lock().unwrap()
+    }
+    fn wait(&self, value: i64) -> GateWait {
+        GateWait { gate: self.clone(), value }
+    }
+}
+
+struct GateWait {
+    gate: GateH,
+    value: i64,
+}
+
+impl std::future::Future for GateWait {
+    type Output = i64;
+    fn poll(self: std::pin::Pin<&mut Self>, cx: &mut std::task::Context<'_>) -> std::task::Poll<i64> {
+        if self.gate.is_open() {
+            std::task::Poll::Ready(self.value)
+        } else {
+            self.gate.wakers.lock().unwrap().push(cx.waker().clone());
+            std::task::Poll::Pending
+        }
+    }
+}
+
 /// what the closures of a view capture: the program's nodes, the state of the enclosing component
 /// bodies (innermost last), the key of the enclosing row
 #[derive(Clone, Default)]
@@ -112,6 +151,8 @@ struct Ctx {
     reg: Reg,
     /// the resources (`ares` lines)
     res: Arc<Vec<AsyncDerived<i64>>>,
+    /// the gates of the `lw` leaves
+    gates: Arc<Vec<GateH>>,
     /// fresh-render oracle: a new component-local signal starts with the current value of the live
     /// instance at the same place of the mounted view (component-local signals are part of the state)
     seed: Option<Reg>,
@@ -161,8 +202,13 @@ fn realise_attrs(attrs: &[AttrD], cx: &Ctx) -> Vec<AnyAttribute> {
         .map(|a| match a {
             AttrD::Stat(n, v) => custom_attribute(*n, v.clone()).into_any_attr(),
             AttrD::Dyn(n, e) => {
+                // an `Option` value: no attribute at 0
                 let (cx, e) = (cx.clone(), e.clone());
-                custom_attribute(*n, move || eval(&cx, &e).to_string()).into_any_attr()
+                custom_attribute(*n, move || {
+                    let v = eval(&cx, &e);
+                    if v == 0 { None } else { Some(v.to_string()) }
+                })
+                .into_any_attr()
             }
             AttrD::Cls(n, e) => {
                 let (cx, e) = (cx.clone(), e.clone());
@@ -170,7 +216,11 @@ fn realise_attrs(attrs: &[AttrD], cx: &Ctx) -> Vec<AnyAttribute> {
             }
             AttrD::Sty(n, e) => {
                 let (cx, e) = (cx.clone(), e.clone());
-                tachys::html::style::style((*n, move || format!("{}px", eval(&cx, &e)))).into_any_attr()
+                tachys::html::style::style((*n, move || {
+                    let v = eval(&cx, &e);
+                    if v == 0 { None } else { Some(format!("{v}px")) }
+                }))
+                .into_any_attr()
             }
         })
         .collect()
@@ -316,6 +366,15 @@ fn realise(v: &Arc<ViewD>, cx: &Ctx) -> AnyView {
         ViewD::Aw(rid) => {
             let d = cx.res[*rid];
             (move || Suspend::new(async move { d.await.to_string() })).into_any()
+        }
+        ViewD::Lw(e) => {
+            let (cx, e) = (cx.clone(), e.clone());
+            (move || {
+                let g = for_index(eval(&cx, &e), 4);
+                let wait = cx.gates[g].wait(g as i64);
+                Suspend::new(async move { wait.await.to_string() })
+            })
+            .into_any()
         }
         ViewD::Susp(x, a) => {
             let (cx1, x) = (cx.clone(), x.clone());
@@ -502,6 +561,8 @@ struct Live {
     ares: Vec<Expr>,
     gate: Gate,
     s_view: bool,
+    /// the tasks of the resources (they run to quiescence after every operation of an S view)
+    res_tasks: Vec<usize>,
 }
 
 impl Live {
@@ -518,7 +579,7 @@ impl Live {
         Live {
             defs: vec![],
             env: vec![],
-            cx: Ctx::default(),
+            cx: Ctx { gates: Arc::new((0..4).map(|_| GateH::default()).collect()), ..Default::default() },
             outer,
             root,
             root2,
@@ -536,6 +597,7 @@ impl Live {
             ares: vec![],
             gate: Gate::default(),
             s_view: false,
+            res_tasks: vec![],
         }
     }
 
@@ -567,9 +629,11 @@ impl Live {
         let fo = Owner::new();
         let (defs, env, root2) = (self.defs.clone(), self.env.clone(), self.root2.clone());
         let seed = self.cx.reg.clone();
+        let gates = self.cx.gates.clone();
         let mut st = fo.with(|| {
             let mut cx = make_ctx(&defs, &env);
             cx.seed = Some(seed);
+            cx.gates = gates;
             // the resources in the state they are in: completed with their value, or pending for ever
             let stats = self.gate.stat.lock().unwrap().clone();
             cx.res = Arc::new(
@@ -602,6 +666,19 @@ impl Live {
         // the fresh render's tasks end when polled (their effects are gone)
         self.run_oracle_tasks();
         s
+    }
+
+    /// the resources' own tasks run as soon as they are woken (the idle-level model of the resources assumes it)
+    fn run_resource_tasks(&mut self) {
+        for _ in 0..10_000 {
+            let r: Vec<usize> = sched::ready().into_iter().filter(|id| self.res_tasks.contains(id)).collect();
+            if r.is_empty() {
+                break;
+            }
+            for id in r {
+                sched::poll(id);
+            }
+        }
     }
 
     fn run_oracle_tasks(&mut self) {
@@ -718,6 +795,18 @@ impl Live {
             let errs = nd::take_errors();
             let got = plain(&self.root);
             let mut v = "ok".to_string();
+            let mut sel = vec![];
+            if let (Some(view), false) = (self.view.as_deref(), self.disposed) {
+                lw_gates(&self.defs, &self.env, view, 0, &mut sel);
+            }
+            if sel.iter().any(|g| !self.cx.gates[*g].is_open()) {
+                // what a `Suspend` over a plain future shows while the load it now selects is unfinished depends on the
+                // polling order: not observed
+                if !errs.is_empty() {
+                    v = "fail dom-error".into();
+                }
+                return format!("sdom=? ## {v}");
+            }
             if self.disposed {
                 if !nd::children(&self.root).is_empty() {
                     v = "fail not-unmounted".into();
@@ -753,7 +842,7 @@ impl Live {
                 self.env.push(v);
                 let mut nodes = (*self.cx.nodes).clone();
                 nodes.push(NodeH::Sig(RwSignal::new(v)));
-                self.cx = Ctx { nodes: Arc::new(nodes), reg: self.cx.reg.clone(), res: self.cx.res.clone(), ..Default::default() };
+                self.cx = Ctx { nodes: Arc::new(nodes), reg: self.cx.reg.clone(), res: self.cx.res.clone(), gates: self.cx.gates.clone(), ..Default::default() };
                 "ok".into()
             }
             "ares" => {
@@ -765,6 +854,7 @@ impl Live {
                 let rid = self.ares.len();
                 self.ares.push(x.clone());
                 let (cx, gate) = (self.cx.clone(), self.gate.clone());
+                let before = sched::task_count();
                 let d = AsyncDerived::new(move || {
                     let v = eval(&cx, &x);
                     let rx = gate.arm(rid, v);
@@ -773,6 +863,7 @@ impl Live {
                         v
                     }
                 });
+                self.res_tasks.extend(before..sched::task_count());
                 let mut res = (*self.cx.res).clone();
                 res.push(d);
                 self.cx.res = Arc::new(res);
@@ -791,6 +882,40 @@ impl Live {
                 }
                 self.line("")
             }
+            "open" | "popen" => {
+                let Some(g) = t.next().and_then(|x| x.parse::<usize>().ok()) else { return "bad-op".into() };
+                if !t.done() || self.view.is_none() || !self.s_view || g >= 4 {
+                    return "bad-op".into();
+                }
+                self.cx.gates[g].open();
+                if op == "open" { self.line("") } else { "~".into() }
+            }
+            "pset" => {
+                let (Some(id), Some(v)) =
+                    (t.next().and_then(|x| x.parse::<usize>().ok()), t.next().and_then(|x| x.parse::<i64>().ok()))
+                else {
+                    return "bad-op".into();
+                };
+                if !t.done() || self.view.is_none() || !self.s_view {
+                    return "bad-op".into();
+                }
+                let Some(NodeH::Sig(s)) = self.cx.nodes.get(id).cloned() else { return "bad-op".into() };
+                if !self.disposed {
+                    self.env[id] = v;
+                }
+                s.set(v);
+                self.run_resource_tasks();
+                "~".into()
+            }
+            "presolve" => {
+                let Some(rid) = t.next().and_then(|x| x.parse::<usize>().ok()) else { return "bad-op".into() };
+                if !t.done() || self.view.is_none() || !self.s_view || rid >= self.ares.len() {
+                    return "bad-op".into();
+                }
+                self.gate.resolve(rid);
+                self.run_resource_tasks();
+                "~".into()
+            }
             "memo" => {
                 let Some(b) = parse_expr(&mut t) else { return "bad-op".into() };
                 if !t.done() || self.view.is_some() || !reads_below(&b, self.defs.len()) {
@@ -801,7 +926,7 @@ impl Live {
                 let cx = self.cx.clone();
                 let mut nodes = (*self.cx.nodes).clone();
                 nodes.push(NodeH::Memo(Memo::new(move |_| eval(&cx, &b))));
-                self.cx = Ctx { nodes: Arc::new(nodes), reg: self.cx.reg.clone(), res: self.cx.res.clone(), ..Default::default() };
+                self.cx = Ctx { nodes: Arc::new(nodes), reg: self.cx.reg.clone(), res: self.cx.res.clone(), gates: self.cx.gates.clone(), ..Default::default() };
                 "ok".into()
             }
             "mount" => {
@@ -859,8 +984,18 @@ impl Live {
             }
             "poll" => {
                 let Some(i) = t.next().and_then(|x| x.parse::<usize>().ok()) else { return "bad-op".into() };
-                if !t.done() || self.view.is_none() || self.s_view {
+                if !t.done() || self.view.is_none() {
                     return "bad-op".into();
+                }
+                if self.s_view {
+                    // one poll of the i-th ready task of the view (the resources' tasks have run already)
+                    self.note_tasks(true);
+                    let r: Vec<usize> = sched::ready().into_iter().filter(|id| !self.res_tasks.contains(id)).collect();
+                    if !r.is_empty() {
+                        sched::poll(r[i % r.len()]);
+                        self.run_resource_tasks();
+                    }
+                    return "~".into();
                 }
                 let polled = match sched::poll_nth_ready(i) {
                     Some(id) => self.taskmap.get(id).copied().flatten().map(|c| c.to_string()).unwrap_or("?".into()),
@@ -945,6 +1080,7 @@ fn view_ok_at(v: &ViewD, n: usize, d: usize, r: bool) -> bool {
         ViewD::Res(c, e) => expr_ok(c, n, d, r) && expr_ok(e, n, d, r),
         ViewD::Sus(k) | ViewD::Tra(k) => view_ok_at(k, n, d, r),
         ViewD::Aw(_) => true,
+        ViewD::Lw(e) => expr_ok(e, n, d, r),
     }
 }
 
@@ -952,7 +1088,7 @@ fn view_ok_at(v: &ViewD, n: usize, d: usize, r: bool) -> bool {
 fn is_local(v: &ViewD) -> bool {
     match v {
         ViewD::Scope(..) | ViewD::ForE(..) => true,
-        ViewD::Text(_) | ViewD::Unit | ViewD::DynText(_) | ViewD::For(..) | ViewD::Res(..) | ViewD::Aw(_) => false,
+        ViewD::Text(_) | ViewD::Unit | ViewD::DynText(_) | ViewD::For(..) | ViewD::Res(..) | ViewD::Aw(_) | ViewD::Lw(_) => false,
         ViewD::Elem(_, _, k) | ViewD::Susp(_, k) | ViewD::Errb(_, k) | ViewD::ForR(_, _, k) | ViewD::Eb(k) | ViewD::Sus(k) | ViewD::Tra(k) => is_local(k),
         ViewD::Seq(a, b) | ViewD::Either(_, a, b) | ViewD::Show(_, a, b) => is_local(a) || is_local(b),
     }
@@ -964,7 +1100,7 @@ fn aw_ok(v: &ViewD, n: usize, in_b: bool) -> bool {
     fn fixed(v: &ViewD) -> bool {
         match v {
             ViewD::Either(..) | ViewD::Show(..) | ViewD::For(..) | ViewD::ForR(..) | ViewD::ForE(..) => false,
-            ViewD::Text(_) | ViewD::Unit | ViewD::DynText(_) | ViewD::Res(..) | ViewD::Aw(_) => true,
+            ViewD::Text(_) | ViewD::Unit | ViewD::DynText(_) | ViewD::Res(..) | ViewD::Aw(_) | ViewD::Lw(_) => true,
             ViewD::Elem(_, _, k) | ViewD::Susp(_, k) | ViewD::Errb(_, k) | ViewD::Scope(_, _, k) | ViewD::Eb(k) | ViewD::Sus(k) | ViewD::Tra(k) => fixed(k),
             ViewD::Seq(a, b) => fixed(a) && fixed(b),
         }
@@ -974,7 +1110,7 @@ fn aw_ok(v: &ViewD, n: usize, in_b: bool) -> bool {
     }
     match v {
         ViewD::Aw(r) => in_b && *r < n,
-        ViewD::Text(_) | ViewD::Unit | ViewD::DynText(_) | ViewD::For(..) => true,
+        ViewD::Text(_) | ViewD::Unit | ViewD::DynText(_) | ViewD::For(..) | ViewD::Lw(_) => true,
         // S views have no error boundaries and none of the older implementation-only forms
         ViewD::Res(..) | ViewD::Susp(..) | ViewD::Errb(..) | ViewD::Eb(..) => false,
         ViewD::Sus(k) => aw_ok(k, n, true),
